@@ -88,7 +88,16 @@ package core
 
 // The /Prev chain is followed newest first and returned oldest first; the walk must terminate on every file,
 // including one whose /Prev entries form a cycle.
-//@ func (*XRefParser) ParseAllXRefs results (tables, err)
+//@ func (*XRefParser) ParsePrevXRef results (prev, err)
 //@   property C02
+//@   ensures followed_an_integer_prev: !err && !isnil(prev) ==> istype(old(table.Trailer.Get("Prev")), Int)
+
+// every continued iteration records one more /Prev offset in `seen`; offsets are 64-bit, so the walk is finite
+//@ func (*XRefParser) ParseAllXRefs results (tables, err)
+//@   property C02, C04
 //@   loop 0:
 //@     invariant len(tables) >= 1
+//@     step older_section_goes_in_front: len(tables) == prev(len(tables)) + 1 && tables[0] == prevTable && currentTable == prevTable
+//@     step newer_sections_keep_their_order: forall k int :: {tables[k]} 1 <= k && k < len(tables) ==> tables[k] == prev(tables)[k-1]
+//@     invariant forall k int64 :: {seen[k]} has(seen, k) ==> seen[k]
+//@     decreases 18446744073709551616 - len(seen)
